@@ -163,6 +163,24 @@ Definition CFConfigMoves_is_legal_set_firing (self_q_vertex : nat) (self_v_tilde
   PyOk (None, tt) end end) (set_order S_names) (PyOk (None, tt)) with PyExn e_ => PyExn e_ | PyOk (Some r_, tt) => PyOk (r_) | PyOk (None, tt) =>
   PyOk (true) end end end end.
 
+(* chipfiring/CFConfig.py :: CFConfigMoves.is_superstable   reads ['self_v_tilde_vertices', 'self_q_vertex', 'self_divisor_degrees', 'self_graph_vertices', 'self_divisor_graph_graph'], writes [], may raise *)
+Definition CFConfigMoves_is_superstable (self_v_tilde_vertices : list nat) (self_q_vertex : nat) (self_divisor_degrees : dictZ) (self_graph_vertices : list nat) (self_divisor_graph_graph : dictD) (set_order : list nat -> list nat) : pyres (unit) bool :=
+  match CFConfigMoves_is_non_negative self_v_tilde_vertices self_q_vertex self_divisor_degrees set_order with PyExn _ => PyExn tt | PyOk t1_ =>
+  if (negb t1_) then
+  PyOk (false)
+  else
+  let v_tilde_node_names := self_v_tilde_vertices in
+  match fold_left (fun acc_ i => match acc_ with PyExn e_ => PyExn e_ | PyOk (Some r_, tt) => PyOk (Some r_, tt) | PyOk (None, tt) => 
+  match fold_left (fun acc_ s_tuple => match acc_ with PyExn e_ => PyExn e_ | PyOk (Some r_, tt) => PyOk (Some r_, tt) | PyOk (None, tt) => 
+  let S_names_subset := s_tuple in
+  match CFConfigMoves_is_legal_set_firing self_q_vertex self_v_tilde_vertices self_graph_vertices self_divisor_degrees self_divisor_graph_graph set_order S_names_subset with PyExn _ => PyExn tt | PyOk t2_ =>
+  if t2_ then
+  PyOk (Some (false), tt)
+  else
+  PyOk (None, tt) end end) (combinations (set_order v_tilde_node_names) i) (PyOk (None, tt)) with PyExn e_ => PyExn e_ | PyOk (Some r_, tt) => PyOk (Some r_, tt) | PyOk (None, tt) =>
+  PyOk (None, tt) end end) (seq 1 (length v_tilde_node_names)) (PyOk (None, tt)) with PyExn e_ => PyExn e_ | PyOk (Some r_, tt) => PyOk (r_) | PyOk (None, tt) =>
+  PyOk (true) end end.
+
 (* chipfiring/CFConfig.py :: CFConfigMoves.__lt__   reads ['self_q_vertex', 'self_graph_vertices', 'self_graph_graph', 'self_v_tilde_vertices', 'self_divisor_degrees'], writes [], may raise *)
 Definition CFConfigMoves___lt__ (self_q_vertex : nat) (self_graph_vertices : list nat) (self_graph_graph : dictD) (self_v_tilde_vertices : list nat) (self_divisor_degrees : dictZ) (set_order : list nat -> list nat) (other_q_vertex : nat) (other_graph_vertices : list nat) (other_graph_graph : dictD) (other_v_tilde_vertices : list nat) (other_divisor_degrees : dictZ) : pyres (unit) bool :=
   match CFConfigMoves___le__ self_q_vertex self_graph_vertices self_graph_graph self_v_tilde_vertices self_divisor_degrees set_order other_q_vertex other_graph_vertices other_graph_graph other_v_tilde_vertices other_divisor_degrees with PyExn _ => PyExn tt | PyOk t1_ =>
